@@ -567,6 +567,24 @@ class Resolver:
         self._edges = E
         return E
 
+    def call_sites(self, g):
+        """[(caller FuncAnalysis, call term)] for every call term that may resolve to g"""
+        idx = self.ctx._cache.get("call_sites")
+        if idx is None:
+            idx = {}
+            for q, f in self.p.funcs.items():
+                try:
+                    fa = self.ctx.fa(f)
+                except RecursionError:
+                    continue
+                for tm, targets in self.callees(fa):
+                    if tm.k != "call":
+                        continue
+                    for h in targets:
+                        idx.setdefault(h.qual, []).append((fa, tm))
+            self.ctx._cache["call_sites"] = idx
+        return idx.get(g.qual, [])
+
     def _all_nested(self, f):
         out = []
         for g in f.nested.values():
